@@ -127,8 +127,8 @@ def annotate_fn(item_text, name, c):
         edits.append((body_open + at, '\n' + ghost(ins['text']) + '\n'))
     for ins in c.get('inserts_all', []):
         hits = [mm for mm in re.finditer(ins['after'], msk[body_open:])]
-        if len(hits) != ins['count']:
-            raise ScanError('ghost insert anchor %r in %s: %d matches, expected %d' % (ins['after'], name, len(hits), ins['count']))
+        if (ins.get('count') is not None and len(hits) != ins['count']) or not hits:
+            raise ScanError('ghost insert anchor %r in %s: %d matches, expected %s' % (ins['after'], name, len(hits), ins.get('count', '>= 1')))
         for mm in hits:
             edits.append((body_open + mm.end(), '\n' + ghost(ins['text']) + '\n'))
     out = item_text
